@@ -1,18 +1,18 @@
 package main
 
 import (
-	"unsafe"
-	"syscall"
-	"sync/atomic"
-	"os"
 	"database/sql"
 	"encoding/json"
 	"fmt"
 	"math/rand"
+	"os"
 	"path/filepath"
 	"strings"
 	"sync"
+	"sync/atomic"
+	"syscall"
 	"time"
+	"unsafe"
 
 	"github.com/resonatehq/resonate/internal/verifh/vh"
 )
@@ -480,9 +480,11 @@ func holdExclusive(path string, d time.Duration) <-chan bool {
 
 // journalWatch observes (inotify) whether SQLite's rollback journal or write-ahead log file is ever created in dir.
 type journalWatch struct {
-	fd   int
-	seen atomic.Bool
-	done chan struct{}
+	fd     int
+	seen   atomic.Bool
+	closed atomic.Bool
+	wd     int
+	done   chan struct{}
 }
 
 func watchJournal(dir, dbBase string) *journalWatch {
@@ -491,27 +493,35 @@ func watchJournal(dir, dbBase string) *journalWatch {
 	if err != nil {
 		return nil
 	}
-	if _, err := syscall.InotifyAddWatch(fd, dir, syscall.IN_CREATE|syscall.IN_MOVED_TO); err != nil {
+	wd, err := syscall.InotifyAddWatch(fd, dir, syscall.IN_CREATE|syscall.IN_MOVED_TO)
+	if err != nil {
 		syscall.Close(fd)
 		return nil
 	}
-	w := &journalWatch{fd: fd, done: make(chan struct{})}
+	w := &journalWatch{fd: fd, wd: wd, done: make(chan struct{})}
 	go func() {
 		defer close(w.done)
+		// the descriptor is closed here and nowhere else: closing it from another goroutine would let the number be
+		// reused while this loop goes back to read from it
+		defer syscall.Close(fd)
 		buf := make([]byte, 64*1024)
 		for {
 			n, err := syscall.Read(fd, buf)
-			if err != nil || n <= 0 {
+			if err != nil || n <= 0 || w.closed.Load() {
 				return
 			}
 			for off := 0; off+syscall.SizeofInotifyEvent <= n; {
 				ev := (*syscall.InotifyEvent)(unsafe.Pointer(&buf[off]))
 				nameLen := int(ev.Len)
-				name := strings.TrimRight(string(buf[off+syscall.SizeofInotifyEvent:off+syscall.SizeofInotifyEvent+nameLen]), "\x00")
+				end := off + syscall.SizeofInotifyEvent + nameLen
+				if nameLen < 0 || end > n {
+					break
+				}
+				name := strings.TrimRight(string(buf[off+syscall.SizeofInotifyEvent:end]), "\x00")
 				if name == dbBase+"-journal" || name == dbBase+"-wal" {
 					w.seen.Store(true)
 				}
-				off += syscall.SizeofInotifyEvent + nameLen
+				off = end
 			}
 		}
 	}()
@@ -519,10 +529,13 @@ func watchJournal(dir, dbBase string) *journalWatch {
 }
 
 func (w *journalWatch) stop() bool {
-	syscall.Close(w.fd)
+	// removing the watch queues an IN_IGNORED event, which wakes the reader; it sees the flag, closes the descriptor
+	// and ends
+	w.closed.Store(true)
+	_, _ = syscall.InotifyRmWatch(w.fd, uint32(w.wd))
 	select {
 	case <-w.done:
-	case <-time.After(time.Second):
+	case <-time.After(2 * time.Second):
 	}
 	return w.seen.Load()
 }
